@@ -242,7 +242,7 @@ impl<T: Samp> OutPort for SOut<T> {
     }
     fn available(&self) -> usize {
         match &self.r {
-            Some(r) => r.read_buf().map(|x| x.0.len()).unwrap_or(0),
+            Some(r) => r.verif_available(),
             None => 0,
         }
     }
